@@ -374,7 +374,7 @@ pub struct FsRun<'a> { pub ctx: &'a mut Ctx, pub focus: Focus }
 
 pub fn run(ctx: &mut Ctx, focus: Focus) {
     let cfgs = all_cfgs(ctx.tier_thorough);
-    let n_hist = match focus { Focus::C06 => ctx.n(120, 1200), _ => ctx.n(200, 3000) };
+    let n_hist = match focus { Focus::C06 => ctx.n(100, 1200), _ => ctx.n(150, 3000) };
     let mut rng = Rng::new(ctx.seed ^ (focus as u64) << 32);
     let mut drv = Drv::spawn();
     if drv.is_none() { ctx.out.count("driver-missing"); }
@@ -457,9 +457,42 @@ fn one_history(ctx: &mut Ctx, focus: Focus, idx: usize, cfg: &VolCfg, steps: usi
             else { lean_check(d, &mut w, &mut vd, "format", None); }
         }
     }
-    for step in 0..steps {
+    // directory-pressure burst: many one-chunk files into one directory, sized to cross the directory's
+    // capacity / growth boundaries (catalog full, sub-directory growing into its 2nd and 3rd block or cluster)
+    let mut burst: Option<(String, usize)> = None;
+    if !slow_cfg(cfg) && rng.chance(40) {
+        let fs = cfg.fs;
+        let counts: &[usize] = match fs {
+            Fs::Dos33 | Fs::Dos32 => &[20, 103, 104, 105, 106],
+            Fs::Pascal => &[20, 76, 77, 78],
+            Fs::Prodos => &[12, 13, 14, 25, 26, 27, 50, 51, 52],
+            Fs::Cpm2 | Fs::Cpm3 => &[30, 46, 47, 48, 49, 62, 63, 64, 65],
+            Fs::Fat => &[13, 14, 15, 16, 29, 30, 31, 32, 33, 46, 47, 62, 63, 64, 65, 110, 111, 112, 113],
+        };
+        let k = *rng.pick(counts);
+        let dir = if fs.has_dirs() && rng.chance(60) { "BURSTD".to_string() } else { String::new() };
+        burst = Some((dir, k));
+    }
+    let mut burst_started = false;
+    let total_steps = steps + burst.as_ref().map(|b| b.1 + 1).unwrap_or(0);
+    for step in 0..total_steps {
         let free = match w.free() { Ok(f) => f, Err(e) => { if e.contains(".rs:") { vd.panic(&e, "stat", &w.hist.clone()); } return; } };
-        let op = choose_op(&mut w, rng, free, focus);
+        let op = match burst.as_mut() {
+            Some((dir, left)) if *left > 0 && step >= 2 => {
+                if !dir.is_empty() && !burst_started { burst_started = true; Op::Mkdir(dir.clone()) }
+                else {
+                    burst_started = true;
+                    *left -= 1;
+                    let base = gen_name(cfg.fs, rng, &BTreeSet::new());
+                    let base = base.split(':').last().unwrap().to_string();
+                    let path = if dir.is_empty() { base } else { format!("{}/{}", dir, base) };
+                    // now and then the entry that makes the directory grow is itself a directory
+                    if cfg.fs.has_dirs() && rng.chance(12) { Op::Mkdir(path) }
+                    else { Op::Put { path, nchunks: 1, holes: false, last_len: rng.range(1, w.chunk_len.max(1)), ftype_sel: rng.below(64) } }
+                }
+            }
+            _ => choose_op(&mut w, rng, free, focus),
+        };
         w.lean_op = None;
         let desc = apply_op(&mut w, op, rng, free, &mut vd, &mut nontrivial);
         let lean_op = w.lean_op.take().unwrap_or("other err".to_string());
@@ -478,8 +511,39 @@ fn one_history(ctx: &mut Ctx, focus: Focus, idx: usize, cfg: &VolCfg, steps: usi
             }
         }
     }
-    // end of history: everything still reads back (C01), and survives save/reload (C06)
+    // pressure fill: use up the remaining free space so that any unit wrongly marked free (by an earlier,
+    // possibly refused, operation) is handed out again and the damage becomes visible in the files
+    if !slow_cfg(cfg) && rng.chance(50) {
+        for round in 0..7 {
+            let free = match w.free() { Ok(f) => f, Err(_) => break };
+            if free == 0 { break; }
+            let units_per_chunk = 1;
+            let overhead = match cfg.fs { Fs::Dos33 | Fs::Dos32 => 1 + free / 122, Fs::Prodos => if free > 256 { 2 + free / 256 } else if free > 1 { 1 } else { 0 }, _ => 0 };
+            let mut n = if round < 3 { (free / 2).max(1) } else { free.saturating_sub(overhead).max(1) } / units_per_chunk;
+            if n == 0 { n = 1; }
+            let path = gen_name(cfg.fs, rng, &BTreeSet::new());
+            let op = Op::Put { path, nchunks: n, holes: false, last_len: w.chunk_len, ftype_sel: rng.below(64) };
+            w.lean_op = None;
+            let desc = apply_op(&mut w, op, rng, free, &mut vd, &mut nontrivial);
+            canon.extend_from_slice(desc.as_bytes());
+            if desc.starts_with("ABORT") { break; }
+            let lean_op = w.lean_op.take().unwrap_or("other err".to_string());
+            check_bystanders(&mut w, &mut vd, &desc);
+            check_listing(&mut w, &mut vd);
+            if use_lean {
+                if let Some(d) = drv.as_deref_mut() {
+                    if let Some(e) = lean_sync(d, &mut tie, &mut w) { vd.out.count(&format!("lean-sync-error:{}", e)); }
+                    else if !desc.starts_with("skip") { let summary = lean_step(d, &mut w, &mut vd, &lean_op, &desc); lean_check_answer(&summary, &mut w, &mut vd, &desc); }
+                }
+            }
+            if desc.contains("=> err") && round >= 3 { break; }
+        }
+        vd.out.count("pressure-fill");
+    }
+    // end of history: everything still reads back (C01), protected files are intact (C19), and the volume survives save/reload (C06)
     check_all_files(&mut w, &mut vd, Focus::C01, "all-files-read-back");
+    check_all_files(&mut w, &mut vd, Focus::C19, "protected-files-intact");
+    check_all_files(&mut w, &mut vd, Focus::C02, "all-files-intact-at-end");
     if focus == Focus::C06 { check_reload(&mut w, &mut vd, rng); }
     if w.hist.len() >= 3 { nontrivial = nontrivial || w.files.len() >= 2; }
     let sample = format!("idx={} cfg={} steps={} files={} history=[{}]", idx, cfgid, w.hist.len(), w.files.len(), w.hist.iter().take(12).cloned().collect::<Vec<_>>().join("; "));
@@ -487,6 +551,7 @@ fn one_history(ctx: &mut Ctx, focus: Focus, idx: usize, cfg: &VolCfg, steps: usi
     ctx.out.case(&canon, nontrivial);
 }
 
+fn slow_cfg(cfg: &VolCfg) -> bool { matches!(cfg.container, "woz1" | "woz2" | "nib" | "2mg-nib") || cfg.kind == names::A2_HD_MAX }
 fn lean_supported(fs: Fs) -> bool { std::env::var("A2V_LEAN_FS").map(|s| s.split(',').any(|x| x == fs.id())).unwrap_or(true) }
 
 fn choose_op(w: &mut World, rng: &mut Rng, free: usize, focus: Focus) -> Op {
@@ -514,6 +579,15 @@ fn choose_op(w: &mut World, rng: &mut Rng, free: usize, focus: Focus) -> Op {
     Op::Delete(pick(rng))
 }
 
+/// another legal spelling of an existing path: the case-insensitive file systems must treat it as the same file
+fn spell(fs: Fs, cp: &str, rng: &mut Rng) -> String {
+    if fs.is_dos() || !rng.chance(35) { return cp.to_string(); }
+    let mut out = String::new();
+    let all = rng.chance(50);
+    for ch in cp.chars() { if ch.is_ascii_uppercase() && (all || rng.chance(50)) { out.push(ch.to_ascii_lowercase()); } else { out.push(ch); } }
+    if fs.is_cpm() && !out.contains(':') && rng.chance(30) { out = format!("0:{}", out); }
+    out
+}
 fn hxs(s: &str) -> String { hx(s.as_bytes()) }
 fn type_num(fs: Fs, r: &RefFile) -> (usize, usize) {
     match fs {
@@ -616,8 +690,9 @@ fn apply_op(w: &mut World, op: Op, rng: &mut Rng, free: usize, vd: &mut Verdicts
         }
         Op::PutDup(cp) => {
             let r = w.files[&cp].clone();
-            let res = match build_fimg(w, &cp, 1, false, 7, 1, rng) { Ok((f, _)) => guarded(|| w.disk.put(&f).map_err(|e| e.to_string())), Err(e) => Ok(Err(e)) };
-            let d = format!("put-dup {} => {}", cp, match &res { Ok(Ok(_)) => "ok".to_string(), Ok(Err(e)) => format!("err:{}", err_class(e)), Err(_) => "PANIC".to_string() });
+            let sp = spell(fs, &cp, rng);
+            let res = match build_fimg(w, &sp, 1, false, 7, 1, rng) { Ok((f, _)) => guarded(|| w.disk.put(&f).map_err(|e| e.to_string())), Err(e) => Ok(Err(e)) };
+            let d = format!("put-dup {} => {}", sp, match &res { Ok(Ok(_)) => "ok".to_string(), Ok(Err(e)) => format!("err:{}", err_class(e)), Err(_) => "PANIC".to_string() });
             w.hist.push(d.clone());
             w.lean_op = Some(format!("put {} {} 0 0 0 -", hxs(&cp), res_tok(&res)));
             match res {
@@ -632,8 +707,9 @@ fn apply_op(w: &mut World, op: Op, rng: &mut Rng, free: usize, vd: &mut Verdicts
         }
         Op::Delete(cp) => {
             let locked = w.files[&cp].locked;
-            let res = guarded(|| w.disk.delete(&cp).map_err(|e| e.to_string()));
-            let d = format!("delete {}{} => {}", cp, if locked { "(locked)" } else { "" }, match &res { Ok(Ok(_)) => "ok".to_string(), Ok(Err(e)) => format!("err:{}", err_class(e)), Err(_) => "PANIC".to_string() });
+            let sp = spell(fs, &cp, rng);
+            let res = guarded(|| w.disk.delete(&sp).map_err(|e| e.to_string()));
+            let d = format!("delete {}{} => {}", sp, if locked { "(locked)" } else { "" }, match &res { Ok(Ok(_)) => "ok".to_string(), Ok(Err(e)) => format!("err:{}", err_class(e)), Err(_) => "PANIC".to_string() });
             w.hist.push(d.clone());
             w.lean_op = Some(format!("delete {} {}", hxs(&cp), res_tok(&res)));
             match res {
@@ -659,8 +735,9 @@ fn apply_op(w: &mut World, op: Op, rng: &mut Rng, free: usize, vd: &mut Verdicts
             let target = if fs.is_cpm() { canon_path(fs, &newbase_arg) } else { match parent_of(&cp) { Some(par) => format!("{}/{}", par, newbase_c), None => newbase_c.clone() } };
             let locked = w.files[&cp].locked;
             let dup = w.files.contains_key(&target) || w.dirs.contains(&target);
-            let res = guarded(|| w.disk.rename(&cp, &newbase_arg).map_err(|e| e.to_string()));
-            let d = format!("rename {}{} -> {} => {}", cp, if locked { "(locked)" } else { "" }, newbase_arg, match &res { Ok(Ok(_)) => "ok".to_string(), Ok(Err(e)) => format!("err:{}", err_class(e)), Err(_) => "PANIC".to_string() });
+            let sp = spell(fs, &cp, rng);
+            let res = guarded(|| w.disk.rename(&sp, &newbase_arg).map_err(|e| e.to_string()));
+            let d = format!("rename {}{} -> {} => {}", sp, if locked { "(locked)" } else { "" }, newbase_arg, match &res { Ok(Ok(_)) => "ok".to_string(), Ok(Err(e)) => format!("err:{}", err_class(e)), Err(_) => "PANIC".to_string() });
             w.hist.push(d.clone());
             w.lean_op = Some(format!("rename {} {} {}", hxs(&cp), hxs(&target), res_tok(&res)));
             match res {
@@ -701,7 +778,7 @@ fn apply_op(w: &mut World, op: Op, rng: &mut Rng, free: usize, vd: &mut Verdicts
             }
             d
         }
-        Op::Lock(cp) | Op::Unlock(cp) => toggle_lock(w, cp, vd),
+        Op::Lock(cp) | Op::Unlock(cp) => toggle_lock(w, cp, vd, rng),
         Op::Retype(cp, sel) => {
             let (typ, sub) = match fs {
                 Fs::Dos33 | Fs::Dos32 => ([ "txt", "bin", "atok", "itok" ][sel % 4].to_string(), String::new()),
@@ -759,11 +836,12 @@ fn apply_op(w: &mut World, op: Op, rng: &mut Rng, free: usize, vd: &mut Verdicts
     }
 }
 
-fn toggle_lock(w: &mut World, cp: String, vd: &mut Verdicts) -> String {
+fn toggle_lock(w: &mut World, cp: String, vd: &mut Verdicts, rng: &mut Rng) -> String {
     // lock if currently unlocked, otherwise unlock; then probe what protection means
     let was = w.files[&cp].locked;
-    let res = if was { guarded(|| w.disk.unlock(&cp).map_err(|e| e.to_string())) } else { guarded(|| w.disk.lock(&cp).map_err(|e| e.to_string())) };
-    let d = format!("{} {} => {}", if was { "unlock" } else { "lock" }, cp, match &res { Ok(Ok(_)) => "ok".to_string(), Ok(Err(e)) => format!("err:{}", err_class(e)), Err(_) => "PANIC".to_string() });
+    let sp = spell(w.fs(), &cp, rng);
+    let res = if was { guarded(|| w.disk.unlock(&sp).map_err(|e| e.to_string())) } else { guarded(|| w.disk.lock(&sp).map_err(|e| e.to_string())) };
+    let d = format!("{} {} => {}", if was { "unlock" } else { "lock" }, sp, match &res { Ok(Ok(_)) => "ok".to_string(), Ok(Err(e)) => format!("err:{}", err_class(e)), Err(_) => "PANIC".to_string() });
     w.hist.push(d.clone());
     w.lean_op = Some(format!("{} {} {}", if was { "unlock" } else { "lock" }, hxs(&cp), res_tok(&res)));
     match res {
